@@ -92,12 +92,15 @@ void RSModel::ResetAliases() {
 }
 
 bool RSModel::Erase(const EntityUID target) {
+  if (!core.Contains(target)) {
+    return false;
+  }
+  ResetDependants(target); // Note: dependants are found through the graph, which forgets target on erase
   if (!core.Erase(target)) {
     return false;
   } else {
     dataFacet->Erase(target);
     calulatorFacet->Erase(target);
-    ResetDependants(target);
     NotifyModification();
     return true;
   }
